@@ -84,8 +84,8 @@ impl Property for C03 {
     }
     fn runs(&self, tier: Tier) -> u64 {
         match tier {
-            Tier::Quick => 30000,
-            Tier::Thorough => 400000,
+            Tier::Quick => 150000,
+            Tier::Thorough => 1500000,
         }
     }
     fn rule(&self) -> &'static str {
